@@ -1,7 +1,427 @@
 package chainsim
 
-import "github.com/meshplus/bitxhub-model/pb"
+import (
+	"encoding/json"
+	"fmt"
+	"sort"
+	"strings"
 
-func applyGov(s *scn, st CStep) {}
+	"github.com/Knetic/govaluate"
+	"github.com/meshplus/bitxhub-model/constant"
+	"github.com/meshplus/bitxhub-model/pb"
+)
 
-func afterBlockGov(s *scn, h uint64, txs []*pb.BxhTransaction, metas []*txMeta, ref *blockResult) {}
+// ---------------------------------------------------------------------------------------------
+// Governance workload and the oracles of C15 (voting) and C16 (gating and lifecycle).
+// Object statuses and proposals are *observed* through the contracts' own queries after every
+// block; the oracles below are written from the statements, not from the FSM tables.
+
+var mustRefuse = map[string]bool{"frozen": true, "forbidden": true, "pause": true, "registering": true, "unavailable": true}
+
+type objView struct {
+	Status string `json:"status"`
+}
+
+type proposalView struct {
+	Id             string               `json:"id"`
+	Typ            string               `json:"Typ"`
+	Status         string               `json:"status"`
+	ObjId          string               `json:"obj_id"`
+	BallotMap      map[string]pb.Ballot `json:"ballot_map"`
+	ApproveNum     uint64               `json:"approve_num"`
+	AgainstNum     uint64               `json:"against_num"`
+	ElectorateList []struct {
+		ID     string `json:"id"`
+		Weight uint64 `json:"weight"`
+	} `json:"electorate_list"`
+	InitialElectorateNum   uint64 `json:"initial_electorate_num"`
+	AvailableElectorateNum uint64 `json:"available_electorate_num"`
+	EventType              string `json:"event_type"`
+	EndReason              string `json:"end_reason"`
+	IsSpecial              bool   `json:"is_special"`
+	IsSuperAdminVoted      bool   `json:"is_super_admin_voted"`
+	StrategyType           string `json:"strategy_type"`
+	StrategyExpression     string `json:"strategy_expression"`
+}
+
+type mProposal struct {
+	id        string
+	votes     map[string]string // accepted votes: voter address -> approve|reject
+	order     []string
+	concluded string // status once observed concluded
+	frozen    string // raw proposal bytes at conclusion
+	objAtEnd  string // object record right after the concluding block
+	endBlock  uint64
+	createdAt uint64
+}
+
+type govModel struct {
+	s         *scn
+	proposals map[string]*mProposal
+	open      []string          // ids in creation order (for vote targeting)
+	objStatus map[string]string // "chain:<id>" / "svc:<chain>:<id>" -> status after the previous block
+	objRaw    map[string]string
+	forbidden map[string]bool
+}
+
+func newGovModel(s *scn) *govModel {
+	return &govModel{s: s, proposals: map[string]*mProposal{}, objStatus: map[string]string{}, objRaw: map[string]string{}, forbidden: map[string]bool{}}
+}
+
+func applyGov(s *scn, st CStep) {
+	switch st.Op {
+	case "gov":
+		c := s.chains[st.A%len(s.chains)]
+		var k *Key
+		var tx *pb.BxhTransaction
+		role := st.Role
+		switch role {
+		case "govadmin":
+			k = s.cfg.World.adminKey(st.N % s.cfg.World.Admins)
+		case "outsider":
+			k = s.users[len(s.users)-1]
+		default:
+			k = c.admin
+		}
+		method := map[string]string{"freeze": "Freeze", "activate": "Activate", "logout": "Logout"}[st.Act]
+		if method == "" {
+			method = "Freeze"
+		}
+		target := ""
+		if st.Obj == "service" {
+			sv := c.services[st.B%len(c.services)]
+			target = c.id + ":" + sv.id
+			tx = s.b.bvm(k, constant.ServiceMgrContractAddr, method+"Service", pb.String(target), pb.String("reason"))
+		} else {
+			target = c.id
+			tx = s.b.bvm(k, constant.AppchainMgrContractAddr, method+"Appchain", pb.String(target), pb.String("reason"))
+		}
+		s.add(tx, &txMeta{kind: "gov", sender: k, note: fmt.Sprintf("%s-%s/%s/%s", st.Act, st.Obj, role, target), target: target})
+	case "vote":
+		gm := s.gov
+		// target: one of the proposals known to be open, newest first; occasionally a finished or unknown one
+		var pid string
+		var cands []string
+		for _, id := range gm.open {
+			cands = append(cands, id)
+		}
+		if len(cands) == 0 || st.N%11 == 10 {
+			all := s.proposals
+			if len(all) == 0 {
+				return
+			}
+			pid = all[st.N%len(all)]
+		} else {
+			pid = cands[st.N%len(cands)]
+		}
+		var k *Key
+		if st.A%(s.cfg.World.Admins+1) == s.cfg.World.Admins {
+			k = s.users[0] // not an administrator
+		} else {
+			k = s.cfg.World.adminKey(st.A % (s.cfg.World.Admins + 1))
+		}
+		v := st.V
+		if v == "" {
+			v = "approve"
+		}
+		tx := s.b.bvm(k, constant.GovernanceContractAddr, "Vote", pb.String(pid), pb.String(v), pb.String("r"))
+		s.add(tx, &txMeta{kind: "vote", sender: k, note: v, target: pid})
+	}
+}
+
+func (gm *govModel) observe() (map[string]string, map[string]string) {
+	s := gm.s
+	r := s.reps[0]
+	who := s.users[0]
+	var q []pb.Transaction
+	var keys []string
+	for _, c := range s.chains {
+		q = append(q, viewTx(who, constant.AppchainMgrContractAddr, "GetAppchain", pb.String(c.id)))
+		keys = append(keys, "chain:"+c.id)
+		for _, sv := range c.services {
+			q = append(q, viewTx(who, constant.ServiceMgrContractAddr, "GetServiceInfo", pb.String(c.id+":"+sv.id)))
+			keys = append(keys, "svc:"+c.id+":"+sv.id)
+		}
+	}
+	rcs := r.viewCall(q...)
+	st, raw := map[string]string{}, map[string]string{}
+	for i, k := range keys {
+		if i < len(rcs) && rcs[i] != nil && rcs[i].Status == pb.Receipt_SUCCESS {
+			o := objView{}
+			_ = json.Unmarshal(rcs[i].Ret, &o)
+			st[k] = o.Status
+			raw[k] = string(rcs[i].Ret)
+		} else {
+			st[k] = "<none>"
+		}
+	}
+	return st, raw
+}
+
+func (gm *govModel) proposal(id string) (*proposalView, string) {
+	s := gm.s
+	rcs := s.reps[0].viewCall(viewTx(s.users[0], constant.GovernanceContractAddr, "GetProposal", pb.String(id)))
+	if len(rcs) != 1 || rcs[0] == nil || rcs[0].Status != pb.Receipt_SUCCESS {
+		return nil, ""
+	}
+	p := &proposalView{}
+	if json.Unmarshal(rcs[0].Ret, p) != nil {
+		return nil, ""
+	}
+	return p, string(rcs[0].Ret)
+}
+
+func evalStrategy(expr string, a, r, t uint64) (bool, error) {
+	e, err := govaluate.NewEvaluableExpression(expr)
+	if err != nil {
+		return false, err
+	}
+	res, err := e.Evaluate(map[string]interface{}{"a": float64(a), "r": float64(r), "t": float64(t)})
+	if err != nil {
+		return false, err
+	}
+	b, ok := res.(bool)
+	if !ok {
+		return false, fmt.Errorf("not boolean")
+	}
+	return b, nil
+}
+
+func afterBlockGov(s *scn, h uint64, txs []*pb.BxhTransaction, metas []*txMeta, ref *blockResult) {
+	gm := s.gov
+	if gm == nil || len(s.chains) == 0 || len(s.chains[0].services) == 0 {
+		return
+	}
+	prevSt := gm.objStatus
+	curSt, curRaw := gm.observe()
+	// ---- which objects were legitimately touched in this block
+	touched := map[string]bool{}
+	govTxInBlock := false
+	for i, mt := range metas {
+		if i >= len(ref.Receipts) {
+			continue
+		}
+		ok := ref.Receipts[i].Status == pb.Receipt_SUCCESS
+		switch mt.kind {
+		case "gov", "setup", "call":
+			govTxInBlock = true
+			if ok && mt.target != "" {
+				touched[mt.target] = true
+			}
+			if ok && mt.kind != "gov" {
+				touched["*"] = true // setup and arbitrary direct calls: no claim about which object they touch
+			}
+		case "vote":
+			govTxInBlock = true
+			if ok {
+				if p, _ := gm.proposal(mt.target); p != nil {
+					touched[p.ObjId] = true
+				}
+			}
+		}
+	}
+	// ---- C16 (ii) + (iii): status changes only with cause; forbidden is absorbing
+	var keys []string
+	for k := range curSt {
+		keys = append(keys, k)
+	}
+	sort.Strings(keys)
+	for _, k := range keys {
+		old, had := prevSt[k]
+		if !had || s.inSetup {
+			continue
+		}
+		id := k[strings.Index(k, ":")+1:]
+		chainID := strings.Split(id, ":")[0]
+		if gm.forbidden[k] && curSt[k] != "forbidden" {
+			s.vio("C16", "forbidden-left", k[:strings.Index(k, ":")], "after block %d: %s was logged out (forbidden) and now has status %s", h, k, curSt[k])
+		}
+		if old != curSt[k] {
+			s.res.Count("probe_status_change")
+			s.res.State("status", strings.Split(k, ":")[0], old, curSt[k])
+			if !touched[id] && !touched[chainID] && !touched["*"] {
+				s.vio("C16", "status-change-without-cause", strings.Split(k, ":")[0]+"/"+old+"->"+curSt[k], "block %d: status of %s changed %s -> %s although the block contains no successful operation on it, no concluding vote on it and no operation on its appchain", h, k, old, curSt[k])
+			}
+		}
+		if curSt[k] == "forbidden" {
+			gm.forbidden[k] = true
+		}
+	}
+	// ---- C16 (iv): a frozen / logged-out appchain has no usable service
+	for _, c := range s.chains {
+		cs := curSt["chain:"+c.id]
+		if cs == "frozen" || cs == "forbidden" {
+			s.res.Count("probe_chain_unusable")
+			for _, sv := range c.services {
+				ss := curSt["svc:"+c.id+":"+sv.id]
+				if ss == "available" || ss == "freezing" {
+					s.vio("C16", "service-usable-on-unusable-chain", cs, "after block %d: appchain %s is %s but its service %s still has status %s", h, c.id, cs, sv.id, ss)
+				}
+			}
+		}
+	}
+	// ---- C16 (i): gating of interchain requests (only in blocks without governance transactions,
+	// so that every status is constant while the block executes)
+	if !govTxInBlock && !s.inSetup {
+		for i, tx := range txs {
+			ib := tx.IBTP
+			if ib == nil || ib.Category() != pb.IBTP_REQUEST || ib.Group != nil || i >= len(ref.Receipts) {
+				continue
+			}
+			if metas[i].kind != "ibtp" {
+				continue
+			}
+			rc := ref.Receipts[i]
+			fp, tp := strings.Split(ib.From, ":"), strings.Split(ib.To, ":")
+			if len(fp) != 3 || len(tp) != 3 {
+				continue
+			}
+			src := prevSt["svc:"+fp[1]+":"+fp[2]]
+			dst, dstKnown := prevSt["svc:"+tp[1]+":"+tp[2]]
+			accepted := rc.Status == pb.Receipt_SUCCESS
+			beginFailed := rc.TxStatus == pb.TransactionStatus_BEGIN_FAILURE || string(rc.Ret) == "begin_failure"
+			if accepted && mustRefuse[src] {
+				s.vio("C16", "request-from-unavailable-service", src, "block %d tx %d: request %s-%s-%d accepted although the source service has status %s", h, i, ib.From, ib.To, ib.Index, src)
+			}
+			if accepted && !beginFailed && dstKnown && mustRefuse[dst] {
+				s.vio("C16", "request-recorded-for-unavailable-destination", dst, "block %d tx %d: request %s-%s-%d recorded for execution although the destination service has status %s", h, i, ib.From, ib.To, ib.Index, dst)
+			}
+			if mustRefuse[src] || (dstKnown && mustRefuse[dst]) {
+				s.res.Count("probe_ibtp_against_unusable_service")
+			}
+		}
+	}
+	gm.objStatus, gm.objRaw = curSt, curRaw
+	// ---- C15: votes and proposals
+	for _, id := range s.proposals {
+		if _, ok := gm.proposals[id]; !ok {
+			gm.proposals[id] = &mProposal{id: id, votes: map[string]string{}, createdAt: h}
+			gm.open = append(gm.open, id)
+		}
+	}
+	if s.inSetup {
+		// proposals concluded during setup are not tracked
+		gm.open = nil
+		for _, p := range gm.proposals {
+			if p.concluded == "" {
+				p.concluded = "setup"
+			}
+		}
+		return
+	}
+	admins := map[string]bool{}
+	for i := 0; i < s.cfg.World.Admins; i++ {
+		admins[s.cfg.World.adminKey(i).Addr.String()] = true
+	}
+	for i, mt := range metas {
+		if mt.kind != "vote" || i >= len(ref.Receipts) {
+			continue
+		}
+		s.res.Count("votes_submitted")
+		if ref.Receipts[i].Status != pb.Receipt_SUCCESS {
+			continue
+		}
+		s.res.Count("votes_accepted")
+		mp := gm.proposals[mt.target]
+		voter := mt.sender.Addr.String()
+		if !admins[voter] {
+			s.vio("C15", "vote-by-non-admin-accepted", "", "block %d tx %d: a vote on %s by %s, which is not an administrator, was accepted", h, i, mt.target, voter)
+		}
+		if mt.note != "approve" && mt.note != "reject" {
+			s.vio("C15", "garbage-vote-accepted", "", "block %d tx %d: vote %q on %s was accepted", h, i, mt.note, mt.target)
+		}
+		if mp == nil {
+			continue
+		}
+		if mp.concluded != "" && mp.endBlock < h {
+			s.vio("C15", "vote-on-finished-proposal-accepted", mp.concluded, "block %d tx %d: vote on proposal %s accepted although it was %s in block %d", h, i, mt.target, mp.concluded, mp.endBlock)
+		}
+		if _, dup := mp.votes[voter]; dup {
+			s.vio("C15", "second-vote-accepted", "", "block %d tx %d: a second vote of %s on proposal %s was accepted", h, i, voter, mt.target)
+		}
+		mp.votes[voter] = mt.note
+		mp.order = append(mp.order, voter)
+	}
+	var stillOpen []string
+	for _, id := range gm.open {
+		mp := gm.proposals[id]
+		pv, raw := gm.proposal(id)
+		if pv == nil {
+			continue
+		}
+		a, r := uint64(0), uint64(0)
+		for _, v := range mp.votes {
+			if v == "approve" {
+				a++
+			} else if v == "reject" {
+				r++
+			}
+		}
+		if pv.Status == "proposed" || mp.createdAt == h {
+			// (tallies of proposals created in this very block may include votes cast before the model saw them)
+			if mp.createdAt != h && (pv.ApproveNum != a || pv.AgainstNum != r) {
+				s.vio("C15", "tally-mismatch", "", "after block %d proposal %s reports %d approvals / %d rejections, the accepted votes are %d / %d", h, id, pv.ApproveNum, pv.AgainstNum, a, r)
+			}
+		}
+		if pv.Status == "proposed" || pv.Status == "pause" {
+			stillOpen = append(stillOpen, id)
+			continue
+		}
+		// concluded in this block
+		mp.concluded, mp.frozen, mp.endBlock = pv.Status, raw, h
+		s.res.Count("proposals_concluded")
+		s.res.State("proposal", pv.Typ, pv.EventType, pv.Status, pv.EndReason, pv.StrategyExpression)
+		if pv.EndReason == "end of normal voting" {
+			s.res.Count("proposals_concluded_by_vote")
+			t := pv.InitialElectorateNum
+			av := pv.AvailableElectorateNum
+			if pv.Status == "approve" {
+				ok1, err1 := evalStrategy(pv.StrategyExpression, a, r, t)
+				ok2, _ := evalStrategy(pv.StrategyExpression, a, r, av)
+				if err1 == nil && !ok1 && !ok2 {
+					s.vio("C15", "approved-without-satisfying-strategy", pv.StrategyExpression, "proposal %s was approved with %d approvals and %d rejections of %d (available %d) electors although its strategy %q is not satisfied", id, a, r, t, av, pv.StrategyExpression)
+				}
+			} else if pv.Status == "reject" {
+				rem := uint64(0)
+				if av > r {
+					rem = av - r
+				}
+				// still reachable if the remaining available electors all approved?
+				ok1, err1 := evalStrategy(pv.StrategyExpression, rem, r, t)
+				ok2, _ := evalStrategy(pv.StrategyExpression, rem, r, av)
+				if err1 == nil && ok1 && ok2 {
+					s.vio("C15", "rejected-while-approval-reachable", pv.StrategyExpression, "proposal %s was rejected by the tally with %d approvals and %d rejections of %d available electors although approval was still reachable under %q", id, a, r, av, pv.StrategyExpression)
+				}
+			}
+			if pv.IsSpecial {
+				super := false
+				for v := range mp.votes {
+					for _, e := range pv.ElectorateList {
+						if e.ID == v && e.Weight == 2 {
+							super = true
+						}
+					}
+				}
+				if !super {
+					s.vio("C15", "special-proposal-concluded-without-super-admin", "", "special proposal %s (%s %s) was concluded by votes none of which came from a super administrator", id, pv.Typ, pv.EventType)
+				}
+			}
+		}
+	}
+	gm.open = stillOpen
+	// finality: concluded proposals never change again
+	var ids []string
+	for id, mp := range gm.proposals {
+		if mp.concluded != "" && mp.concluded != "setup" && mp.endBlock < h && mp.endBlock+6 > h {
+			ids = append(ids, id)
+		}
+	}
+	sort.Strings(ids)
+	for _, id := range ids {
+		mp := gm.proposals[id]
+		if _, raw := gm.proposal(id); raw != "" && raw != mp.frozen {
+			s.vio("C15", "finished-proposal-changed", mp.concluded, "after block %d: proposal %s concluded as %s in block %d but its record changed afterwards", h, id, mp.concluded, mp.endBlock)
+			mp.frozen = raw
+		}
+	}
+}
